@@ -500,3 +500,72 @@ def enum_lookup(cls, s):
         if ex.decide(s._eq_term(m.name)):
             return m
     raise KeyError(s)
+
+
+# ---- rendering numbers (C14): str(int), f'{x:.Nf}' ---------------------------
+def _digits_str(a, nd):
+    """nd decimal digits (most significant first) of the non-negative Int term a"""
+    # quotient chain (q_{j+1} = q_j div 10, d_j = q_j mod 10): every step is linear
+    # for the solver, unlike div by 10^j
+    ds = []
+    q = a
+    for j in range(nd):
+        ds.append(tm.add(I(48), tm.imod(q, I(10))))
+        q = tm.idiv(q, I(10))
+    return list(reversed(ds))
+
+
+def render_int(t, max_digits=6):
+    """str(n) for a symbolic Int |n| < 10^max_digits: forks on sign and on the
+    number of digits, the digit characters stay symbolic."""
+    ex = symx.cur()
+    neg = ex.decide(tm.lt(t, I(0)))
+    a = tm.neg(t) if neg else t
+    nd = None
+    for k in range(1, max_digits + 1):
+        if ex.decide(tm.lt(a, I(10 ** k))):
+            nd = k
+            break
+    if nd is None:
+        raise symx.PathCut('render_int: more than %d digits' % max_digits)
+    chars = ([I(45)] if neg else []) + _digits_str(a, nd)
+    return BStr(chars, I(len(chars)))
+
+
+def render_fixed(x, places, max_digits=6):
+    """f'{x:.{places}f}' for a symbolic float that lies on the 10^-places grid
+    (x = k / 10^places): exact decimal rendering."""
+    ex = symx.cur()
+    xt = symx._lift(x)[0]
+    # the formatted number is x rounded to `places` decimals: any integer k with
+    # |k - x*10^places| <= 1/2 + eps (exactly x*10^places when x is on that grid)
+    k = tm.var(ex.fresh_name('fixk', xt, places), 'I')
+    scaled = tm.mul(tm.to_real(xt) if xt.sort != 'R' else xt, tm.R(10 ** places))
+    band = tm.R(Fraction(1, 2) + symx.EPS)
+    ex.assume(tm.and_(tm.le(tm.sub(tm.to_real(k), scaled), band), tm.le(tm.sub(scaled, tm.to_real(k)), band)))
+    neg = ex.decide(tm.lt(k, I(0)))
+    a = tm.neg(k) if neg else k
+    ip = tm.idiv(a, I(10 ** places))
+    fp = tm.imod(a, I(10 ** places))
+    nd = None
+    for d in range(1, max_digits + 1):
+        if ex.decide(tm.lt(ip, I(10 ** d))):
+            nd = d
+            break
+    if nd is None:
+        raise symx.PathCut('render_fixed: more than %d integer digits' % max_digits)
+    chars = ([I(45)] if neg else []) + _digits_str(ip, nd)
+    if places > 0:
+        chars = chars + [I(46)] + _digits_str(fp, places)
+    return BStr(chars, I(len(chars)))
+
+
+def format_number(v, spec):
+    """hook for hv.rt.fstr: '.Nf' formats of symbolic numbers"""
+    import re
+    m = re.match(r'^\.(\d+)f$', spec or '')
+    if m:
+        return render_fixed(v, int(m.group(1)))
+    if spec == '' and isinstance(v, symx.SymInt):
+        return render_int(v.term)
+    raise symx.Unsupported('format spec %r' % spec)
